@@ -263,6 +263,65 @@ theorem C04_progress_upload (F : Bytes) (ops : List UOp) (off n : Nat) (lim : Bo
   rw [if_pos]
   rw [g2, g3, hfs, hbt, hpos]; omega
 
+/-! ## The retry control plane (`FileXfer.Ctl`): "once faults stop, the pair finishes without user action"
+
+Full statement: *after ANY history of attempts, resets (seen by the two ends in either order, any time apart),
+time-outs of the hand-shake, message deliveries in any interleaving with the file-connection events, `pause()` /
+`queue()`: when no further reset happens and nobody calls the API, every fair continuation ends with the download
+COMPLETE (or waiting for the user because the USER paused / aborted it).* Proved below: (a) the invariant that makes
+this possible — no re-queue request is ever lost (`C04_pair_no_requeue_lost`), over all op lists; (b) from every
+reachable state in which nothing is in flight and no attempt is under way, ONE round of cycles, deliveries and a
+fault-free attempt (whose data plane is `C04_progress`) completes both transfers (`C04_pair_progress_partial`).
+Missing for the full statement: (c) that every fair fault-free continuation reaches such a quiescent state (a
+termination argument over the messages and time-outs still pending) — exercised on the real pair (3600 virtual
+seconds after the last fault) and by running the model's canonical continuation from every sampled real state, not
+proved. Outside the alphabet: a downloader that gives up by its own 180 s read time-out closes the connection in an
+orderly way; if its re-queue request overtakes that close the uploader ignores the one and takes the other for the
+end of a complete upload — the protocol has no message that repairs this (remark in the report). -/
+
+/-- **No re-queue request is lost.** In every state the pair can reach — any interleaving of management cycles,
+message deliveries (FIFO per direction), hand-shake failures, resets learnt by either end first, user actions —: a
+download that is waiting for the uploader (`remotely_queued`, QUEUED or INCOMPLETE) is right to wait: the uploader
+holds its request (QUEUED / being initialized / uploading) or will once the messages on their way to it have
+arrived, or a `PeerUploadFailed` that ends the waiting is on its way; and a running download never has the flag.
+(Before fixes/C04-upload-eof-wait-read-error.patch `uLearn` in the EOF wait ended COMPLETE without a message: the
+invariant failed and the pair stayed INCOMPLETE / COMPLETE for ever — the witness case of `props/c04.py`.) -/
+theorem C04_pair_no_requeue_lost (ops : List Ctl.Op) :
+    Ctl.invB (Ctl.run Ctl.S.init ops) = true ∧
+    (Ctl.retryable (Ctl.run Ctl.S.init ops).d = true → (Ctl.run Ctl.S.init ops).rq = true →
+      Ctl.settleU (Ctl.uHolds (Ctl.run Ctl.S.init ops).u) (Ctl.run Ctl.S.init ops).toU = true ∨
+      Ctl.ToD.puf ∈ (Ctl.run Ctl.S.init ops).toD) := by
+  have h := Ctl.inv_run ops _ ((Ctl.invB_iff _).mp Ctl.inv_init)
+  exact ⟨(Ctl.invB_iff _).mpr h, h.held⟩
+
+/-- **Progress over attempts (partial: from quiescence).** After ANY history, in a state where nothing is in flight
+and no attempt is under way, a download that is QUEUED or INCOMPLETE is finished by one fault-free round — the
+downloader's cycle (re-)queues it remotely unless the uploader already holds it, the uploader's cycle offers it, the
+reply, the file connection, the attempt — with no user action: both transfers COMPLETE, nothing left in flight. -/
+theorem C04_pair_progress_partial (ops : List Ctl.Op)
+    (hq : Ctl.quiescent (Ctl.run Ctl.S.init ops) = true)
+    (hr : Ctl.retryable (Ctl.run Ctl.S.init ops).d = true) :
+    (Ctl.run (Ctl.run Ctl.S.init ops) Ctl.round).d = .complete ∧
+    (Ctl.run (Ctl.run Ctl.S.init ops) Ctl.round).u = .complete ∧
+    Ctl.quiescent (Ctl.run (Ctl.run Ctl.S.init ops) Ctl.round) = true :=
+  Ctl.round_completes _ (Ctl.inv_run ops _ ((Ctl.invB_iff _).mp Ctl.inv_init)) hq hr
+
+/-! the witness schedule: all bytes written, the reset reaches the downloader first, its re-queue request is
+ignored by the uploader that still waits for the close; then the uploader learns of the reset — FAILED +
+PeerUploadFailed, the flag is cleared, the next round finishes the transfer -/
+example : (Ctl.run Ctl.S.init [.dCycle, .uRecv, .uCycle, .dRecv, .uRecv, .fUp, .uWroteAll,
+      .dLearn, .dCycle, .uRecv, .uLearn]).d = .incomplete ∧
+    (Ctl.run Ctl.S.init [.dCycle, .uRecv, .uCycle, .dRecv, .uRecv, .fUp, .uWroteAll,
+      .dLearn, .dCycle, .uRecv, .uLearn]).rq = true ∧
+    (Ctl.run Ctl.S.init [.dCycle, .uRecv, .uCycle, .dRecv, .uRecv, .fUp, .uWroteAll,
+      .dLearn, .dCycle, .uRecv, .uLearn]).u = .failed ∧
+    (Ctl.run Ctl.S.init [.dCycle, .uRecv, .uCycle, .dRecv, .uRecv, .fUp, .uWroteAll,
+      .dLearn, .dCycle, .uRecv, .uLearn]).toD = [.puf] := by decide
+example : Ctl.quiescent (Ctl.run Ctl.S.init [.dCycle, .uRecv, .uCycle, .dRecv, .uRecv, .fUp, .uWroteAll,
+      .dLearn, .dCycle, .uRecv, .uLearn, .dRecv]) = true ∧
+    Ctl.retryable (Ctl.run Ctl.S.init [.dCycle, .uRecv, .uCycle, .dRecv, .uRecv, .fUp, .uWroteAll,
+      .dLearn, .dCycle, .uRecv, .uLearn, .dRecv]).d = true := by decide
+
 /-! Non-vacuity: the hypotheses are met by non-trivial reachable histories (a 5-byte file, a cut after 2
 bytes, a resumed attempt; a dishonest sender; an upload resumed at offset 2). -/
 example : Honest [1, 2, 3, 4, 5] (Dl.init [])
